@@ -127,6 +127,8 @@ def top_level_loops(body):
         if fl is not None: out.append((fl, e0))
     return out
 
+PATTERN = [None]
+
 def extract_nests(t, nvar):
     nests = []
     for (fl, e0) in top_level_loops(t['body']):
@@ -145,7 +147,8 @@ def extract_nests(t, nvar):
         names2 = dict(names); names2[jvar] = 'j'
         # texts outside the inner loop
         inner_ids = set(id(x) for x in walk(jnode))
-        lits = [(x, x['value'] if x.get('lit') == 'Str' else bytes(x['value']).decode('latin1')) for x in walk(ibody)
+        import engine_u
+        lits = [(x, x['value'] if x.get('lit') == 'Str' else engine_u.decode_template(x['value'])) for x in walk(ibody)
                 if x['k'] == 'Literal' and x.get('lit') in ('Str', 'ByteStr') and id(x) not in inner_ids]
         outer_text = ''.join(s for _, s in lits)
         # the single formatted index inside the inner loop
@@ -153,10 +156,17 @@ def extract_nests(t, nvar):
         if len(tuples) != 1: raise NUndec('inner loop does not format exactly one index', jnode.get('loc'))
         E = poly_of(tuples[0]['fields'][0], names2)
         tmpl = [bytes(x['value']) for x in walk(jbody) if x['k'] == 'Literal' and x.get('lit') == 'ByteStr']
-        item_ok = any(b'v_' in b and b',' in b for b in tmpl)
+        import engine_u, engine_l
+        item_ok = False
+        for b in tmpl:
+            try:
+                if engine_l.tokenize_text(PATTERN[0], engine_u.decode_template(list(b))) == ['VAR:v_ARG', 'Comma']: item_ok = True
+            except Exception:
+                pass
         if not item_ok: raise NUndec('inner loop does not emit `v_<index>,`', jnode.get('loc'))
         nests.append({'ilo': poly_of(ilo, names), 'ihi': poly_of(ihi, names), 'iinc': iinc,
-                      'jlo': poly_of(jlo, names2), 'jhi': poly_of(jhi, names2), 'jinc': jinc, 'E': E, 'text': outer_text, 'loc': e0.get('loc')})
+                      'jlo': poly_of(jlo, names2), 'jhi': poly_of(jhi, names2), 'jinc': jinc, 'E': E, 'text': outer_text,
+                      'tokens': engine_l.tokenize_text(PATTERN[0], outer_text), 'loc': e0.get('loc')})
     return nests
 
 # ---------------------------------------------------------------- analysis
@@ -208,8 +218,13 @@ def analyse_nest(nest):
     id_at = lambda iv: padd({k: v for k, v in idp.items() if k[0] == 0}, {k: v * a for k, v in iv.items()})
     e1, e2 = id_at(lo_i), id_at(hi_i)
     ids = (e1, e2) if a == 1 else (e2, e1)
-    op = '<= 1' if '<= 1' in nest['text'] else ('= 1' if '= 1' in nest['text'] else None)
-    return {'kind': kind, 'ids': ids, 'R': R, 'C': C, 'op': op, 'brackets': nest['text'].count('[') == 1 and nest['text'].count(']') == 1, 'loc': nest['loc']}
+    # the text around the list, tokenised with the language's own token table: `[` ... `]` (<= | =) 1 &
+    toks = nest.get('tokens')
+    op = None; brackets = False
+    if toks is not None:
+        if toks == ['OpenSquare', 'CloseSquare', 'ImpliesInv', 'NUM:1', 'And']: op, brackets = '<= 1', True
+        elif toks == ['OpenSquare', 'CloseSquare', 'Eq', 'NUM:1', 'And']: op, brackets = '= 1', True
+    return {'kind': kind, 'ids': ids, 'R': R, 'C': C, 'op': op, 'brackets': brackets, 'loc': nest['loc']}
 
 FULL = {'diag': (padd(P(1), N_, -1), padd(N_, P(-1))), 'anti': (P(0), padd(pmul(P(2), N_), P(-2))), 'row': (P(0), padd(N_, P(-1))), 'col': (P(0), padd(N_, P(-1)))}
 WANT_OP = {'diag': '<= 1', 'anti': '<= 1', 'row': '= 1', 'col': '= 1'}
@@ -229,6 +244,10 @@ def rule_queens(F, R):
                     if q['k'] == 'Binding': nvar = q['var']
     if nvar is None:
         R.violation('n_queens_gen::main / N / board size', 'UNDECIDABLE', 'cannot find the variable holding the number of queens'); return
+    from engine_t import tokenizer_pattern
+    PATTERN[0] = tokenizer_pattern(F.lib())[0]
+    if PATTERN[0] is None:
+        R.violation('n_queens_gen::main / N / tokenizer', 'UNDECIDABLE', 'tokenizer pattern not found'); return
     try:
         nests = extract_nests(t, nvar)
     except NUndec as u:
@@ -248,7 +267,7 @@ def rule_queens(F, R):
         ok = a['op'] == WANT_OP[a['kind']] and a['brackets']
         R.obligation(ok, 'N op %d' % k)
         if not ok:
-            R.violation('n_queens_gen::main / N / operator of loop nest #%d' % (k + 1), 'N', 'a %s constraint must read `[..] %s`; emitted text around the list: %r' % (a['kind'], WANT_OP[a['kind']], nest['text']), nest['loc'])
+            R.violation('n_queens_gen::main / N / operator of loop nest #%d' % (k + 1), 'N', 'a %s constraint must read `[..] %s &`; the text around the list tokenises to %s' % (a['kind'], WANT_OP[a['kind']], nest.get('tokens')), nest['loc'])
         fam.setdefault(a['kind'], []).append(a)
         R.sample({'rule': 'N', 'loop nest': k + 1, 'index': pshow(nest['E']), 'row': pshow(a['R']), 'column': pshow(a['C']), 'line': a['kind'],
                   'ids': '%s .. %s' % (pshow(a['ids'][0]), pshow(a['ids'][1])), 'constraint': a['op']})
